@@ -133,9 +133,13 @@ with pure_elist (l : elist) : bool :=
   match l with ENil => true | ECons e l' => pure_expr e && pure_elist l' end.
 
 (* every remembered value of a side-effect free node is its from-scratch value on the current facts *)
+Definition not_func (a : atom) : Prop := match a with AFunc _ _ => False | _ => True end.
+
 Definition memo_sound (s : estate) : Prop :=
   (forall e v, In (e, v) (es_mexpr s) -> pure_expr e = true -> NE e /\ fresh_expr (es_facts s) e = Ok v) /\
-  (forall a v, In (a, v) (es_matom s) -> pure_atom a = true -> NA a /\ fresh_atom (es_facts s) a = Ok v).
+  (forall a v, In (a, v) (es_matom s) -> pure_atom a = true -> NA a /\ fresh_atom (es_facts s) a = Ok v) /\
+  (* DEFUNC calls are never remembered *)
+  (forall a v, In (a, v) (es_matom s) -> not_func a).
 
 (* evaluation of a pure node changes nothing but the memo and the call counters *)
 Definition frame (s s' : estate) : Prop := es_facts s' = es_facts s /\ es_fx s' = es_fx s.
@@ -146,19 +150,21 @@ Proof. intros a b c [A1 A2] [B1 B2]. split; congruence. Qed.
 
 Lemma memo_sound_expr : forall s e v, memo_sound s -> NE e -> (pure_expr e = true -> fresh_expr (es_facts s) e = Ok v) -> memo_sound (memo_expr s e v).
 Proof.
-  intros s e v [He Ha] Hn H. split; simpl.
+  intros s e v (He & Ha & Hk) Hn H. split; [|split]; simpl.
   - intros e' v' [E|Hin] Hp; [inversion E; subst; auto | auto].
   - exact Ha.
+  - exact Hk.
 Qed.
-Lemma memo_sound_atom : forall s a v, memo_sound s -> NA a -> (pure_atom a = true -> fresh_atom (es_facts s) a = Ok v) -> memo_sound (memo_atom s a v).
+Lemma memo_sound_atom : forall s a v, memo_sound s -> not_func a -> NA a -> (pure_atom a = true -> fresh_atom (es_facts s) a = Ok v) -> memo_sound (memo_atom s a v).
 Proof.
-  intros s a v [He Ha] Hn H. split; simpl.
+  intros s a v (He & Ha & Hk) Hnf Hn H. split; [|split]; simpl.
   - exact He.
   - intros a' v' [E|Hin] Hp; [inversion E; subst; auto | auto].
+  - intros a' v' [E|Hin]; [inversion E; subst; auto | eauto].
 Qed.
 
 Lemma memo_sound_count : forall s m, memo_sound s -> memo_sound (count_call s m).
-Proof. intros s m [He Ha]. split; simpl; auto. Qed.
+Proof. intros s m (He & Ha & Hk). split; [|split]; simpl; auto. Qed.
 
 (* writing back the value that is already there changes nothing *)
 Lemma field_set_same : forall fs n x, field_get fs n = Some x -> field_set fs n x = fs.
@@ -220,7 +226,7 @@ Proof.
         destruct (path_get (es_facts s) q) as [[sv|fs0|[t|]|xs|kvs]| |] eqn:G; try discriminate.
         destruct t as [sv|fs1| | |]; try discriminate. inversion Ek; subst. assumption. }
       simpl in H. rewrite (path_set_same _ _ _ Hg) in H. inversion H; subst.
-      split; [reflexivity|]. split; [split; reflexivity|]. destruct Hs as [He Ha]. split; simpl; auto.
+      split; [reflexivity|]. split; [split; reflexivity|]. destruct Hs as (He & Ha & Hk). split; [|split]; simpl; auto.
     + inversion H; subst. split; [reflexivity|]. split; [apply frame_refl|assumption].
     + inversion H; subst. split; [reflexivity|].
       destruct (panics_inside f args); (split; [split; reflexivity|]); auto using memo_sound_count.
@@ -287,10 +293,10 @@ Lemma fr_ECons : forall fx e l, fresh_args fx (ECons e l) =
 
 Lemma memo_hit_expr : forall s e v, memo_sound s -> pure_expr e = true -> lookup_expr (es_mexpr s) e = Some v ->
   Ok v = fresh_expr (es_facts s) e.
-Proof. intros s e v [He _] Hp H. symmetry. apply He; auto. apply lookup_expr_in; auto. Qed.
+Proof. intros s e v (He & _) Hp H. symmetry. apply He; auto. apply lookup_expr_in; auto. Qed.
 Lemma memo_hit_atom : forall s a v, memo_sound s -> pure_atom a = true -> lookup_atom (es_matom s) a = Some v ->
   Ok v = fresh_atom (es_facts s) a.
-Proof. intros s a v [_ Ha] Hp H. symmetry. apply Ha; auto. apply lookup_atom_in; auto. Qed.
+Proof. intros s a v (_ & Ha & _) Hp H. symmetry. apply Ha; auto. apply lookup_atom_in; auto. Qed.
 
 Ltac fr :=
   first [ apply frame_refl
@@ -348,7 +354,7 @@ Proof.
     intros c Hp Hn s r s' Hs H. rewrite eval_atom_unfold in H; unfold eval_atom_miss in H.
     destruct (lookup_atom (es_matom s) (AConst c)) as [v|] eqn:L.
     { inversion H; subst r s'. fin. eapply memo_hit_atom; eauto. }
-    inversion H; subst r s'. rewrite fr_AConst. fin. apply memo_sound_atom; auto.
+    inversion H; subst r s'. rewrite fr_AConst. fin. apply memo_sound_atom; simpl; auto.
   - (* AVar *)
     intros x IHx Hp Hn s r s' Hs H. rewrite eval_atom_unfold in H; unfold eval_atom_miss in H.
     pose proof (NA_var _ Hn) as Hnx.
@@ -357,7 +363,7 @@ Proof.
     destruct (eval_var x s) as [rx s1] eqn:Ex. simpl in Hp.
     destruct (IHx Hp Hnx s rx s1 Hs Ex) as (Hr & Hf & Hs1). rewrite fr_AVar.
     destruct rx as [v| |]; inversion H; subst r s'; fin.
-    apply memo_sound_atom; auto. intros _. destruct Hf as [Hf _]. rewrite Hf, fr_AVar. auto.
+    apply memo_sound_atom; simpl; auto. intros _. destruct Hf as [Hf _]. rewrite Hf, fr_AVar. auto.
   - (* AFunc *)
     intros f args IHargs Hp Hn s r s' Hs H. rewrite eval_atom_unfold in H; unfold eval_atom_miss in H.
     pose proof (NA_func _ _ Hn) as Hnl.
@@ -370,23 +376,9 @@ Proof.
     rewrite fr_AFunc, <- Hr. apply negb_true_iff in Hnc. rewrite Hnc.
     destruct ra as [vs| |]; try (inversion H; subst r s'; fin; fail).
     (* f is not a control built-in: only the value branch remains *)
-    assert (Hgen: (defunc_value (es_facts s1) f vs, s1) = (r, s')).
-    { unfold control_builtin in Hnc.
-      apply orb_false_iff in Hnc. destruct Hnc as [Hnc N4].
-      apply orb_false_iff in Hnc. destruct Hnc as [Hnc N3].
-      apply orb_false_iff in Hnc. destruct Hnc as [N1 N2].
-      apply String.eqb_neq in N1, N2, N3, N4.
-      revert H. generalize (map (arg_val s1) vs) as vals. intros vals H.
-      destruct (string_dec f "Retract") as [->|D1]; [congruence|].
-      destruct (string_dec f "Complete") as [->|D2]; [congruence|].
-      destruct (string_dec f "Forget") as [->|D3]; [congruence|].
-      destruct (string_dec f "Changed") as [->|D4]; [congruence|].
-      revert H. clear -D1 D2 D3 D4.
-      (* the match on the name of f: every named branch is excluded *)
-      repeat (match goal with
-              | |- context [match ?x with EmptyString => _ | String _ _ => _ end] => is_var x; destruct x
-              | |- context [match ?c with Ascii _ _ _ _ _ _ _ _ => _ end] => is_var c; destruct c as [[|] [|] [|] [|] [|] [|] [|] [|]]
-              end); try (intros H; exact H); try congruence. }
+    assert (Hk: defunc_kind f = DOther) by (unfold control_builtin in Hnc; destruct (defunc_kind f); auto; discriminate).
+    rewrite Hk in H.
+    assert (Hgen: (defunc_value (es_facts s1) f vs, s1) = (r, s')) by exact H.
     rewrite Efx1 in Hgen. inversion Hgen; subst r s'. fin.
   - (* AMethod *)
     intros a IHa f args IHargs Hp Hn s r s' Hs H. rewrite eval_atom_unfold in H; unfold eval_atom_miss in H.
@@ -415,7 +407,7 @@ Proof.
     assert (Hf03: frame s s3) by (eapply frame_trans; eauto).
     assert (Efx3: es_facts s3 = es_facts s) by apply Hf03.
     destruct rc as [v| |]; inversion H; subst r s'; fin.
-    apply memo_sound_atom; auto. intros _.
+    apply memo_sound_atom; simpl; auto. intros _.
     rewrite Efx3, fr_AMethod, <- Hr, <- Hr2. auto.
   - (* AMember *)
     intros a IHa n Hp Hn s r s' Hs H. rewrite eval_atom_unfold in H; unfold eval_atom_miss in H. simpl in Hp.
@@ -429,7 +421,7 @@ Proof.
     destruct ra as [recv| |]; try (inversion H; subst r s'; fin; fail).
     unfold child_field in H. rewrite Efx1 in H.
     destruct (child_field_f (es_facts s) recv n) as [v| |] eqn:Ec; inversion H; subst r s'; fin.
-    apply memo_sound_atom; auto. intros _. rewrite Efx1, fr_AMember, <- Hr. exact Ec.
+    apply memo_sound_atom; simpl; auto. intros _. rewrite Efx1, fr_AMember, <- Hr. exact Ec.
   - (* ASel *)
     intros a IHa sel IHsel Hp Hn s r s' Hs H. rewrite eval_atom_unfold in H; unfold eval_atom_miss in H.
     destruct (NA_sel _ _ Hn) as [Hna Hne].
@@ -456,7 +448,7 @@ Proof.
     destruct (eval_atom a s) as [ra s1] eqn:Ea.
     destruct (IHa Hp Hna s ra s1 Hs Ea) as (Hr & Hf & Hs1). rewrite fr_ANeg, <- Hr.
     destruct ra as [v| |]; inversion H; subst r s'; fin.
-    apply memo_sound_atom; auto. intros _. destruct Hf as [Hf _]. rewrite Hf, fr_ANeg, <- Hr. reflexivity.
+    apply memo_sound_atom; simpl; auto. intros _. destruct Hf as [Hf _]. rewrite Hf, fr_ANeg, <- Hr. reflexivity.
   - (* VName *)
     intros n Hp Hn s r s' Hs H. rewrite eval_var_unfold in H. rewrite fr_VName.
     destruct (alookup n (es_facts s)); inversion H; subst r s'; fin.
@@ -501,6 +493,287 @@ Proof.
     rewrite Efx1 in Hr2. rewrite <- Hr2.
     assert (Hf02: frame s s2) by (eapply frame_trans; eauto).
     destruct rl as [vs| |]; inversion H; subst r s'; fin.
+Qed.
+
+
+(* ------------------------------------------------------------------ *)
+(* actions                                                             *)
+Notation fresh_target := (fresh_target meth).
+Notation spec_stmt := (spec_stmt meth).
+Notation spec_stmts := (spec_stmts meth).
+Notation exec_stmt := (exec_stmt allvars meth panics_inside).
+Notation exec_stmts := (exec_stmts allvars meth panics_inside).
+Notation assign_target := (assign_target allvars meth panics_inside).
+Notation assign_var := (assign_var allvars meth panics_inside).
+
+(* forgetting remembered values never hurts *)
+Lemma memo_sound_filter : forall s (fe : expr * rval -> bool) (fa : atom * rval -> bool),
+  memo_sound s ->
+  memo_sound {| es_facts := es_facts s; es_mexpr := filter fe (es_mexpr s); es_matom := filter fa (es_matom s);
+                es_calls := es_calls s; es_fx := es_fx s |}.
+Proof.
+  intros s fe fa (He & Ha & Hk). split; [|split]; simpl.
+  - intros e v Hin. apply filter_In in Hin. destruct Hin. auto.
+  - intros a v Hin. apply filter_In in Hin. destruct Hin. auto.
+  - intros a v Hin. apply filter_In in Hin. destruct Hin. eauto.
+Qed.
+
+Lemma reset_name_sound : forall s n, memo_sound s -> memo_sound (reset_name allvars s n).
+Proof.
+  intros s n H. unfold reset_name. destruct (find _ allvars).
+  - unfold reset_variable. apply memo_sound_filter; auto.
+  - apply memo_sound_filter; auto.
+Qed.
+
+(* the dependency hypothesis for one write: every node of the knowledge base that survives the
+   reset (its snapshot does not contain the assigned variable's snapshot) keeps its from-scratch value *)
+Definition write_ok (x : var) (fx fx' : facts) : Prop :=
+  (forall e, NE e -> pure_expr e = true -> containsb (expr_snapshot e) (var_snapshot x) = false ->
+             fresh_expr fx' e = fresh_expr fx e) /\
+  (forall a, NA a -> pure_atom a = true -> containsb (atom_snapshot a) (var_snapshot x) = false ->
+             fresh_atom fx' a = fresh_atom fx a).
+
+Lemma reset_variable_sound : forall s x fx',
+  memo_sound s -> write_ok x (es_facts s) fx' -> memo_sound (reset_variable (with_facts s fx') x).
+Proof.
+  intros s x fx' (He & Ha & Hk) [We Wa]. unfold reset_variable. split; [|split]; simpl.
+  - intros e v Hin Hp. apply filter_In in Hin. destruct Hin as [Hin Hs]. simpl in Hs. apply negb_true_iff in Hs.
+    destruct (He e v Hin Hp) as [Hn Hf]. split; auto. rewrite We; auto.
+  - intros a v Hin Hp. apply filter_In in Hin. destruct Hin as [Hin Hs]. simpl in Hs. apply negb_true_iff in Hs.
+    destruct (Ha a v Hin Hp) as [Hn Hf]. split; auto. rewrite Wa; auto.
+  - intros a v Hin. apply filter_In in Hin. destruct Hin. eauto.
+Qed.
+
+Lemma assign_target_agrees : forall x s r s',
+  pure_var x = true -> NV x -> memo_sound s -> assign_target x s = (r, s') ->
+  r = fresh_target (es_facts s) x /\ frame s s' /\ memo_sound s'.
+Proof.
+  destruct eval_agrees as (Aexpr & _ & Avar & _).
+  intros x s r s' Hp Hn Hs H. destruct x as [n|x' n|x' sel]; simpl in H; simpl.
+  - inversion H; subst. fin.
+  - simpl in Hp. pose proof (NV_member _ _ Hn) as Hnx.
+    destruct (eval_var x' s) as [rx s1] eqn:Ex.
+    destruct (Avar x' Hp Hnx s rx s1 Hs Ex) as (Hr & Hf & Hs1). rewrite <- Hr.
+    destruct rx as [[v|p]| |]; inversion H; subst r s'; fin.
+  - simpl in Hp. apply andb_prop in Hp. destruct Hp as [Hpx Hps]. destruct (NV_sel _ _ Hn) as [Hnx Hne].
+    destruct (eval_var x' s) as [rx s1] eqn:Ex.
+    destruct (Avar x' Hpx Hnx s rx s1 Hs Ex) as (Hr & Hf & Hs1). rewrite <- Hr.
+    assert (Efx1: es_facts s1 = es_facts s) by apply Hf.
+    destruct rx as [rv| |]; try (inversion H; subst r s'; fin; fail).
+    destruct (eval_expr sel s1) as [rk s2] eqn:Ek.
+    destruct (Aexpr sel Hps Hne s1 rk s2 Hs1 Ek) as (Hr2 & Hf2 & Hs2).
+    assert (Efx2: es_facts s2 = es_facts s) by (destruct Hf2 as [A _]; congruence).
+    rewrite Efx1 in Hr2. rewrite <- Hr2.
+    assert (Hf02: frame s s2) by (eapply frame_trans; eauto).
+    destruct rk as [k| |]; try (inversion H; subst r s'; fin; fail).
+    destruct rv as [v|p]; inversion H; subst r s'; fin.
+    unfold arg_val. rewrite Efx2. reflexivity.
+Qed.
+
+(* dependency hypothesis of the knowledge base: every successful assignment respects the reads of the surviving nodes *)
+Hypothesis writes_respect_reads : forall x fx t nv fx',
+  NV x -> pure_var x = true -> fresh_target fx x = Ok t -> write_target fx t nv = Ok fx' -> write_ok x fx fx'.
+
+Lemma assign_var_sim : forall x nv s r s',
+  pure_var x = true -> NV x -> memo_sound s -> assign_var x nv s = (r, s') ->
+  memo_sound s' /\ es_fx s' = es_fx s /\
+  match fresh_target (es_facts s) x with
+  | Ok t => match write_target (es_facts s) t nv with
+            | Ok fx' => r = Ok tt /\ es_facts s' = fx'
+            | _ => r <> Ok tt /\ es_facts s' = es_facts s
+            end
+  | _ => r <> Ok tt /\ es_facts s' = es_facts s
+  end.
+Proof.
+  intros x nv s r s' Hp Hn Hs H. unfold Eval.assign_var in H.
+  destruct (assign_target x s) as [rt s1] eqn:Et.
+  destruct (assign_target_agrees x s rt s1 Hp Hn Hs Et) as (Hr & [Hf1 Hf2] & Hs1).
+  rewrite <- Hr.
+  destruct rt as [t| |].
+  - rewrite Hf1 in H.
+    destruct (write_target (es_facts s) t nv) as [fx'| |] eqn:Ew; inversion H; subst r s'.
+    + split; [|split; [simpl; auto|split; [reflexivity|reflexivity]]].
+      apply reset_variable_sound; auto. rewrite Hf1. eapply writes_respect_reads; eauto.
+    + split; [assumption|split; [assumption|split; [discriminate|assumption]]].
+    + split; [assumption|split; [assumption|split; [discriminate|assumption]]].
+  - inversion H; subst r s'. split; [assumption|split; [assumption|split; [discriminate|assumption]]].
+  - inversion H; subst r s'. split; [assumption|split; [assumption|split; [discriminate|assumption]]].
+Qed.
+
+(* the statements covered: assignments over pure expressions, control built-ins, pure calls *)
+Definition stmt_ok (st : stmt) : Prop :=
+  match st with
+  | SAssign x o e => pure_var x = true /\ NV x /\ pure_expr e = true /\ NE e
+  | SAtom (AFunc f args) => pure_elist args = true /\ NL args
+  | SAtom a => pure_atom a = true /\ NA a
+  end.
+
+Ltac dfail := split; [assumption | split; [discriminate | split; congruence]].
+
+Lemma exec_assign_sim : forall x o e s r s',
+  pure_var x = true -> NV x -> pure_expr e = true -> NE e -> memo_sound s ->
+  exec_stmt (SAssign x o e) s = (r, s') ->
+  memo_sound s' /\
+  match spec_stmt (es_facts s) (SAssign x o e) with
+  | SOk fx' fxs => r = Ok tt /\ es_facts s' = fx' /\ es_fx s' = (es_fx s ++ fxs)%list
+  | SFail => r <> Ok tt /\ es_facts s' = es_facts s /\ es_fx s' = es_fx s
+  end.
+Proof.
+  destruct eval_agrees as (Aexpr & Aatom & Avar & Aargs).
+  intros x o e s r s' Hpx Hnx Hpe Hne Hs H.
+  unfold Eval.exec_stmt in H. unfold Fresh.spec_stmt.
+  destruct (eval_expr e s) as [re s1] eqn:Ee.
+  destruct (Aexpr e Hpe Hne s re s1 Hs Ee) as (Hr & [Hf1 Hf1'] & Hs1). rewrite <- Hr.
+  destruct re as [rv| |]; [| inversion H; subst r s'; dfail | inversion H; subst r s'; dfail].
+  unfold arg_val in H. rewrite Hf1 in H.
+  destruct (asg_op o) as [f|] eqn:Eo.
+  - destruct (eval_var x s1) as [rc s2] eqn:Ev.
+    destruct (Avar x Hpx Hnx s1 rc s2 Hs1 Ev) as (Hr2 & [Hf2 Hf2'] & Hs2).
+    rewrite Hf1 in Hr2. rewrite <- Hr2.
+    destruct rc as [cur| |]; [| inversion H; subst r s'; dfail | inversion H; subst r s'; dfail].
+    unfold arg_val in H. rewrite Hf2, Hf1 in H.
+    destruct (f (scalar_of (es_facts s) cur) (scalar_of (es_facts s) rv)) as [nv| |];
+      [| inversion H; subst r s'; dfail | inversion H; subst r s'; dfail].
+    destruct (assign_var_sim x nv s2 r s' Hpx Hnx Hs2 H) as (Hs' & Hfx & Hres).
+    rewrite Hf2, Hf1 in Hres. split; [assumption|].
+    destruct (fresh_target (es_facts s) x) as [t| |].
+    + destruct (write_target (es_facts s) t nv); destruct Hres as [A B].
+      * split; [assumption|split; [assumption|rewrite app_nil_r; congruence]].
+      * split; [assumption|split; congruence].
+      * split; [assumption|split; congruence].
+    + destruct Hres as [A B]. split; [assumption|split; congruence].
+    + destruct Hres as [A B]. split; [assumption|split; congruence].
+  - destruct (assign_var_sim x (scalar_of (es_facts s) rv) s1 r s' Hpx Hnx Hs1 H) as (Hs' & Hfx & Hres).
+    rewrite Hf1 in Hres. split; [assumption|].
+    destruct (fresh_target (es_facts s) x) as [t| |].
+    + destruct (write_target (es_facts s) t (scalar_of (es_facts s) rv)); destruct Hres as [A B].
+      * split; [assumption|split; [assumption|rewrite app_nil_r; congruence]].
+      * split; [assumption|split; congruence].
+      * split; [assumption|split; congruence].
+    + destruct Hres as [A B]. split; [assumption|split; congruence].
+    + destruct Hres as [A B]. split; [assumption|split; congruence].
+Qed.
+
+Lemma exec_pure_atom_sim : forall a s r s',
+  not_func a -> pure_atom a = true -> NA a -> memo_sound s ->
+  exec_stmt (SAtom a) s = (r, s') ->
+  memo_sound s' /\
+  match (match fresh_atom (es_facts s) a with Ok _ => SOk (es_facts s) [] | _ => SFail end) with
+  | SOk fx' fxs => r = Ok tt /\ es_facts s' = fx' /\ es_fx s' = (es_fx s ++ fxs)%list
+  | SFail => r <> Ok tt /\ es_facts s' = es_facts s /\ es_fx s' = es_fx s
+  end.
+Proof.
+  destruct eval_agrees as (_ & Aatom & _ & _).
+  intros a s r s' Hnf Hpa Hna Hs H. unfold Eval.exec_stmt in H.
+  destruct (eval_atom a s) as [ra s1] eqn:Ea.
+  destruct (Aatom a Hpa Hna s ra s1 Hs Ea) as (Hr & [Hf1 Hf1'] & Hs1). rewrite <- Hr.
+  destruct ra as [v| |]; inversion H; subst r s'.
+  - split; [assumption|split; [reflexivity|split; [assumption|rewrite app_nil_r; assumption]]].
+  - dfail.
+  - dfail.
+Qed.
+
+Lemma eval_func_sim : forall f args s ra sa,
+  pure_elist args = true -> NL args -> memo_sound s ->
+  eval_atom (AFunc f args) s = (ra, sa) ->
+  memo_sound sa /\
+  match spec_stmt (es_facts s) (SAtom (AFunc f args)) with
+  | SOk fx' fxs => (exists v, ra = Ok v) /\ es_facts sa = fx' /\ es_fx sa = (es_fx s ++ fxs)%list
+  | SFail => (forall v, ra <> Ok v) /\ es_facts sa = es_facts s /\ es_fx sa = es_fx s
+  end.
+Proof.
+  destruct eval_agrees as (_ & _ & _ & Aargs).
+  intros f args s r s' Hpa Hnl Hs H. unfold Fresh.spec_stmt.
+  rewrite eval_atom_unfold in H.
+  destruct (lookup_atom (es_matom s) (AFunc f args)) as [v|] eqn:L.
+  { exfalso. destruct Hs as (_ & _ & Hk). apply lookup_atom_in in L. apply (Hk _ _ L). }
+  unfold eval_atom_miss in H.
+  destruct (eval_args args s) as [ra s1] eqn:Ea.
+  destruct (Aargs args Hpa Hnl s ra s1 Hs Ea) as (Hr & [Hf1 Hf1'] & Hs1). rewrite <- Hr.
+  assert (FAIL: forall (rr : res rval) sx, memo_sound sx -> es_facts sx = es_facts s -> es_fx sx = es_fx s -> (forall v, rr <> Ok v) ->
+                memo_sound sx /\ ((forall v, rr <> Ok v) /\ es_facts sx = es_facts s /\ es_fx sx = es_fx s)) by (intros; auto).
+  destruct ra as [vs| |];
+    [| inversion H; subst r s'; apply FAIL; auto; intros; discriminate
+     | inversion H; subst r s'; apply FAIL; auto; intros; discriminate].
+  replace (map (arg_val s1) vs) with (map (scalar_of (es_facts s)) vs) in H
+    by (apply map_ext; intros; unfold arg_val; rewrite Hf1; reflexivity).
+  rewrite Hf1 in H.
+  generalize dependent (map (scalar_of (es_facts s)) vs). intros vals H.
+  destruct (defunc_kind f) eqn:Ek.
+  - (* Retract *)
+    destruct vals as [|v0 vt]; [inversion H; subst r s'; apply FAIL; auto; intros; discriminate|].
+    destruct v0; try (inversion H; subst r s'; apply FAIL; auto; intros; discriminate).
+    destruct vt; inversion H; subst r s'; [|apply FAIL; auto; intros; discriminate].
+    split; [destruct Hs1 as (A & B & C); split; [|split]; simpl; auto|].
+    split; [eauto|split; [assumption|simpl; congruence]].
+  - (* Complete *)
+    destruct vals as [|v0 vt]; inversion H; subst r s'; [|apply FAIL; auto; intros; discriminate].
+    split; [destruct Hs1 as (A & B & C); split; [|split]; simpl; auto|].
+    split; [eauto|split; [assumption|simpl; congruence]].
+  - (* Forget / Changed *)
+    destruct vals as [|v0 vt]; [inversion H; subst r s'; apply FAIL; auto; intros; discriminate|].
+    destruct v0; try (inversion H; subst r s'; apply FAIL; auto; intros; discriminate).
+    destruct vt; inversion H; subst r s'; [|apply FAIL; auto; intros; discriminate].
+    split; [apply reset_name_sound; assumption|].
+    split; [eauto|]. unfold reset_name. destruct (find _ allvars); simpl; rewrite app_nil_r; auto.
+  - (* a value-only built-in *)
+    inversion H; subst r s'.
+    destruct (defunc_value (es_facts s) f vs).
+    + split; [assumption|split; [eauto|split; [assumption|rewrite app_nil_r; assumption]]].
+    + apply FAIL; auto; intros; discriminate.
+    + apply FAIL; auto; intros; discriminate.
+Qed.
+
+Lemma exec_func_sim : forall f args s r s',
+  pure_elist args = true -> NL args -> memo_sound s ->
+  exec_stmt (SAtom (AFunc f args)) s = (r, s') ->
+  memo_sound s' /\
+  match spec_stmt (es_facts s) (SAtom (AFunc f args)) with
+  | SOk fx' fxs => r = Ok tt /\ es_facts s' = fx' /\ es_fx s' = (es_fx s ++ fxs)%list
+  | SFail => r <> Ok tt /\ es_facts s' = es_facts s /\ es_fx s' = es_fx s
+  end.
+Proof.
+  intros f args s r s' Hpa Hnl Hs H. unfold Eval.exec_stmt in H.
+  destruct (eval_atom (AFunc f args) s) as [ra sa] eqn:Ea.
+  destruct (eval_func_sim f args s ra sa Hpa Hnl Hs Ea) as (Hsa & Hm). split.
+  - destruct ra; inversion H; subst; assumption.
+  - destruct (spec_stmt (es_facts s) (SAtom (AFunc f args))) as [fx' fxs|].
+    + destruct Hm as ((v & ->) & A & B). inversion H; subst. auto.
+    + destruct Hm as (Hn & A & B). destruct ra as [v| |]; [exfalso; eapply Hn; eauto| |]; inversion H; subst; repeat split; auto; discriminate.
+Qed.
+
+Lemma exec_stmt_sim : forall st s r s',
+  stmt_ok st -> memo_sound s -> exec_stmt st s = (r, s') ->
+  memo_sound s' /\
+  match spec_stmt (es_facts s) st with
+  | SOk fx' fxs => r = Ok tt /\ es_facts s' = fx' /\ es_fx s' = (es_fx s ++ fxs)%list
+  | SFail => r <> Ok tt /\ es_facts s' = es_facts s /\ es_fx s' = es_fx s
+  end.
+Proof.
+  intros st s r s' Hok Hs H. destruct st as [x o e|a].
+  - destruct Hok as (A & B & C & D). eapply exec_assign_sim; eauto.
+  - destruct a as [c|x|f args|a' f args|a' n|a' sel|a'];
+      try (destruct Hok as [A B]; unfold Fresh.spec_stmt;
+           match type of H with Eval.exec_stmt _ _ _ (SAtom ?aa) _ = _ => exact (exec_pure_atom_sim aa s r s' I A B Hs H) end).
+    destruct Hok as [A B]. eapply exec_func_sim; eauto.
+Qed.
+
+(* ThenExpressionList.Execute against its SPEC *)
+Lemma exec_stmts_sim : forall l s failed s',
+  Forall stmt_ok l -> memo_sound s -> exec_stmts l s = (failed, s') ->
+  memo_sound s' /\
+  (let '(fx', fxs, failed') := spec_stmts (es_facts s) l (es_fx s) in
+   failed = failed' /\ es_facts s' = fx' /\ es_fx s' = fxs).
+Proof.
+  induction l as [|st l IH]; intros s failed s' Hok Hs H; simpl in *.
+  - inversion H; subst. auto.
+  - inversion Hok as [|? ? Hst Hl]; subst.
+    destruct (exec_stmt st s) as [r s1] eqn:Es.
+    destruct (exec_stmt_sim st s r s1 Hst Hs Es) as (Hs1 & Hm).
+    destruct (spec_stmt (es_facts s) st) as [fx1 fxs1|].
+    + destruct Hm as (-> & Hf & Hx). specialize (IH s1 failed s' Hl Hs1 H).
+      rewrite Hf, Hx in IH. exact IH.
+    + destruct Hm as (Hn & Hf & Hx). destruct r as [[]| |]; [congruence| |]; inversion H; subst; auto.
 Qed.
 
 End Memo.
